@@ -3,11 +3,15 @@ from vcommon import *
 import scen_common, prop_mu_family
 
 PID = "C02"
-PROP_V = ["Props/Properties_C02.v", "Props/Properties_C02b.v"]
+PROP_V = ["Props/Properties_C02.v", "Props/Properties_C02b.v", "Props/Properties_C02c.v"]
 GEN_MODULES = ["Consts", "Sites"]
 FLOW_FILES = ['mu.c']
 REPLAY_HINT = "VRT_SEED=<seed> [env] _work/h/<scenario>; a STUCK report lists the sleeping threads and the last steps"
-PARTIAL = ["quantifier 'counting and binary semaphores': as C01 (abstract counting semaphore in the model; binary flavour in the scenario runs of mu_mix only)",
+PARTIAL = ["the property's own shape is a theorem for balanced straight-line programs (Properties_C02c, C02_balanced_quiescent_done: every reachable world in which "
+           "every thread is asleep, finished or crashed has everybody finished; no trylock, no nested acquisition -- the model stops a re-acquiring thread at Crash 4, so "
+           "self-deadlock is excluded by hypothesis); it is the safety half (no reachable deadlock / lost wake-up): that a fair schedule reaches such a world is still "
+           "not a theorem (spinners are runnable)",
+           "quantifier 'counting and binary semaphores': as C01 (abstract counting semaphore in the model; binary flavour in the scenario runs of mu_mix only)",
            'C02_try_result relates two ghosts set by the same expression (last_try / held): its weight is on the lock-step tie, which compares the word values; C02_try_nonblocking holds by the shape of the three Try pcs (no P among them) -- likewise tied by replay and by the flow pin of mu.c',
            "hand-off half, proved (Properties_C02b over MuModel, any threads/programs/schedules): in a quiescent reachable world every thread "
            "asleep in nsync_mu_lock / nsync_mu_rlock faces a mutex that is HELD (C02_no_lost_handoff_partial; writer half at full strength), it "
